@@ -266,6 +266,7 @@ static cfg_opt_t *cfg_getopt_secidx(cfg_t *cfg, const char *name,
 {
 	cfg_opt_t *opt = NULL;
 	cfg_t *sec = cfg;
+	const char *fullname = name;
 
 	if (!cfg || !cfg->name || !name || !*name) {
 		errno = EINVAL;
@@ -340,8 +341,12 @@ static cfg_opt_t *cfg_getopt_secidx(cfg_t *cfg, const char *name,
 
 		name += len;
 		name += strspn(name, "|");
-		if (!*name && name[-1] == '|')
-			return NULL;	/* stray separator at the end */
+		if (!*name && name[-1] == '|') {
+			/* stray separator at the end */
+			if (!is_set(CFGF_IGNORE_UNKNOWN, cfg->flags))
+				cfg_error(cfg, _("no such option '%s'"), fullname);
+			return NULL;
+		}
 	}
 
 	if (!index) {
